@@ -57,7 +57,8 @@ selects by probing the real script: D21 (`unterminated_dropped` / `repaired_keep
 F19-EMPTYSTEM (`emptystem_witness`; excluded from `compress_expands` by `NoStemClash`, no exclusion
 left in `compress_expands_repaired`), F19-LONGRUN (`longrun_witness`, `ranges_within_limit`;
 `compress_expands` holds for every limit), F19-MANYRANGES (`manyranges_witness`,
-`ranges_per_bracket`), F19-DIRZERO (`dirzero_witness`: `-d 0` is taken for "no -d"; open).
+`ranges_per_bracket`), F19-DIRZERO (`dirzero_witness`: `-d 0` was taken for "no -d"; repaired by /repo 8474bb4 — `plan false` = `defined $opt_d`
+is what the driver runs and what `plan_d` / `plan_f` / `plan_c_d_refused` are about).
 -/
 namespace PdshVerif.Props.C19
 open PdshVerif.Dshbak
@@ -389,38 +390,58 @@ example : processLines false (readFiles ["a: x\na: y".toList, "a: z\nb: w".toLis
 /-- NOTHING IS HALF DONE BY THE OPTION BLOCK: whatever the options and whatever is found under the name given
 to `-d`, the script either stops before it reads a single line (usage / fatal: nothing is printed to stdout,
 no file is written) or runs exactly one of the three output functions — over ALL of `sortn (keys %lines)` -/
-theorem plan_cases (fixD0 : Bool) (o : Opts) (ds : DirState) :
-    plan fixD0 o ds = .usage ∨ plan fixD0 o ds = .fatal ∨ plan fixD0 o ds = .report ∨
-      plan fixD0 o ds = .coalesced ∨ ∃ b, plan fixD0 o ds = .perFile b := by
-  cases h : plan fixD0 o ds <;> simp
+theorem plan_cases (truth : Bool) (o : Opts) (ds : DirState) :
+    plan truth o ds = .usage ∨ plan truth o ds = .fatal ∨ plan truth o ds = .report ∨
+      plan truth o ds = .coalesced ∨ ∃ b, plan truth o ds = .perFile b := by
+  cases h : plan truth o ds <;> simp
 
 /-- `-c` never writes files and `-d DIR` never coalesces; `-f` alone, or `-c` with `-d`, is refused -/
-theorem plan_exclusive (fixD0 : Bool) (o : Opts) (ds : DirState) :
-    (plan fixD0 o ds = .coalesced → o.c = true ∧ dGiven fixD0 o = false ∧ o.f = false) ∧
-    (∀ b, plan fixD0 o ds = .perFile b → dGiven fixD0 o = true ∧ o.c = false ∧ (b = true → o.f = true ∧ ds = .missing) ∧
+theorem plan_exclusive (truth : Bool) (o : Opts) (ds : DirState) :
+    (plan truth o ds = .coalesced → o.c = true ∧ dGiven truth o = false ∧ o.f = false) ∧
+    (∀ b, plan truth o ds = .perFile b → dGiven truth o = true ∧ o.c = false ∧ (b = true → o.f = true ∧ ds = .missing) ∧
       (b = false → ds = .dir)) ∧
-    (plan fixD0 o ds = .report → o.c = false ∧ o.f = false ∧ dGiven fixD0 o = false) := by
+    (plan truth o ds = .report → o.c = false ∧ o.f = false ∧ dGiven truth o = false) := by
   unfold plan
-  cases o.h <;> cases o.c <;> cases o.f <;> cases dGiven fixD0 o <;> cases ds <;> simp
+  cases o.h <;> cases o.c <;> cases o.f <;> cases dGiven truth o <;> cases ds <;> simp
 
-/-- with `-d DIR` given (a name Perl takes for true) and DIR an existing directory, the per-file output runs -/
-theorem plan_d (o : Opts) (dir : Str) (hd : o.d = some dir) (ht : perlTrue dir = true) (hh : o.h = false)
-    (hc : o.c = false) (fixD0 : Bool) : plan fixD0 o .dir = .perFile false := by
-  have : dGiven fixD0 o = true := by simp [dGiven, hd, ht]
+/-- THE SCRIPT (`defined $opt_d`, /repo 8474bb4): with `-d DIR` given — WHATEVER the directory is called, `0` and
+the empty name included — and DIR an existing directory, the per-file output runs -/
+theorem plan_d (o : Opts) (dir : Str) (hd : o.d = some dir) (hh : o.h = false) (hc : o.c = false) :
+    plan false o .dir = .perFile false := by
+  have : dGiven false o = true := by simp [dGiven, hd]
   simp [plan, hh, hc, this]
 
-/-- `-f` creates a missing DIR and changes nothing when DIR exists -/
-theorem plan_f (o : Opts) (dir : Str) (hd : o.d = some dir) (ht : perlTrue dir = true) (hh : o.h = false)
-    (hc : o.c = false) (hf : o.f = true) (fixD0 : Bool) :
-    plan fixD0 o .missing = .perFile true ∧ plan fixD0 o .dir = .perFile false ∧ plan fixD0 o .notDir = .fatal := by
-  have : dGiven fixD0 o = true := by simp [dGiven, hd, ht]
+/-- `-f` creates a missing DIR and changes nothing when DIR exists (every directory name) -/
+theorem plan_f (o : Opts) (dir : Str) (hd : o.d = some dir) (hh : o.h = false) (hc : o.c = false) (hf : o.f = true) :
+    plan false o .missing = .perFile true ∧ plan false o .dir = .perFile false ∧ plan false o .notDir = .fatal := by
+  have : dGiven false o = true := by simp [dGiven, hd]
   simp [plan, hh, hc, hf, this]
 
-/-- F19-DIRZERO (witness): `dshbak -d 0` — a directory named `0` — prints the report to stdout instead of
-writing one file per host, because the script tests the truth of the NAME; with `defined $opt_d` it does not -/
+/-- `-c` together with `-d` is refused for every directory name, and `-f` is accepted with every `-d` -/
+theorem plan_c_d_refused (o : Opts) (dir : Str) (hd : o.d = some dir) (hh : o.h = false) (hc : o.c = true)
+    (ds : DirState) : plan false o ds = .fatal := by
+  have : dGiven false o = true := by simp [dGiven, hd]
+  simp [plan, hh, hc, this]
+
+/-- both forms of the script agree on every directory name Perl takes for true (all but `0` and the empty name):
+the repair changed nothing else -/
+theorem plan_forms_agree (o : Opts) (h : ∀ dir, o.d = some dir → perlTrue dir = true) (ds : DirState) :
+    plan true o ds = plan false o ds := by
+  have : dGiven true o = dGiven false o := by
+    unfold dGiven
+    cases hd : o.d with
+    | none => rfl
+    | some dir => simp [h dir hd]
+  simp [plan, this]
+
+/-- F19-DIRZERO (witness; repaired by /repo 8474bb4): BEFORE that commit `dshbak -d 0` — a directory named `0` —
+printed the report to stdout instead of writing one file per host and refused `-f -d 0`, because the script
+tested the truth of the NAME; the script as it is writes the files.  checks/c19.py runs `-d 0`, `-d ''`, `-d 00`,
+`-d 0.0` x every flag set in every run: a script that loses `defined` again is reported with `-d 0` -/
 theorem dirzero_witness :
-    plan false { d := some "0".toList } .dir = .report ∧ plan true { d := some "0".toList } .dir = .perFile false ∧
-    plan false { d := some "0".toList, f := true } .dir = .fatal := by decide
+    plan true { d := some "0".toList } .dir = .report ∧ plan false { d := some "0".toList } .dir = .perFile false ∧
+    plan true { d := some "0".toList, f := true } .dir = .fatal ∧
+    plan false { d := some "0".toList, f := true } .dir = .perFile false := by decide
 
 /-- `-d DIR`, LOSSLESS: for every input and every hash order, the paths `do_output_per_file` opens are pairwise
 different STRINGS, one per label of the input, each `DIR/LABEL`, and what is printed to it is exactly that
